@@ -1,6 +1,6 @@
 import inspect
 import sys
-from dataclasses import is_dataclass
+from dataclasses import fields, is_dataclass
 from typing import (
     Any,
     Awaitable,
@@ -47,9 +47,19 @@ class DataclassLike(Protocol):
 _DCT = TypeVar("_DCT", bound=DataclassLike)
 
 
+def _dataclass_instance_to_dict(val: Any) -> Dict[str, Any]:
+    # instances of ``slots=True`` dataclasses have no ``__dict__``
+    if hasattr(val, "__dict__"):
+        instance_dict: Dict[str, Any] = val.__dict__
+        return instance_dict
+    return {f.name: getattr(val, f.name) for f in fields(val) if hasattr(val, f.name)}
+
+
 def dataclass_no_coerce(data_cls: Type[_DCT]) -> Coercer[Dict[Any, Any]]:
     def _fn(val: Any) -> Maybe[Dict[Any, Any]]:
-        return Just(val.__dict__) if type(val) is data_cls else nothing
+        return (
+            Just(_dataclass_instance_to_dict(val)) if type(val) is data_cls else nothing
+        )
 
     return Coercer(_fn, {data_cls})
 
@@ -178,7 +188,7 @@ class DataclassValidator(_ToTupleValidator[_DCT]):
         elif type(val) is dict:
             coerced_val = val
         elif type(val) is self.data_cls:
-            coerced_val = val.__dict__
+            coerced_val = _dataclass_instance_to_dict(val)
         else:
             return False, Invalid(
                 CoercionErr(
@@ -229,7 +239,7 @@ class DataclassValidator(_ToTupleValidator[_DCT]):
         elif type(val) is dict:
             coerced_val = val
         elif type(val) is self.data_cls:
-            coerced_val = val.__dict__
+            coerced_val = _dataclass_instance_to_dict(val)
         else:
             return False, Invalid(
                 CoercionErr(
